@@ -85,7 +85,8 @@ def determinism(argv) -> int:
     for cid in ids:
         outs = []
         for hs, limit in (("0", "1500"), ("12345", "1500")):
-            r = _run_check(cid, "/repo/src", ("--digest-only", "--limit", limit), hashseed=hs)
+            # (evenly spaced over the whole case list: every family of the check is in the sample)
+            r = _run_check(cid, "/repo/src", ("--digest-only", "--limit", limit, "--spread"), hashseed=hs)
             d = [l for l in r.stdout.splitlines() if l.startswith("DIGEST")]
             outs.append(d[0] if d else r.stdout[-300:] + r.stderr[-300:])
         ok = len(set(outs)) == 1 and outs[0].startswith("DIGEST")
